@@ -305,7 +305,10 @@ class _Lite(object):
         t = F.LiteTag(lite_s=lite_s)
         for n in range(15):
             t.b[n] = bytearray(T.rbytes(rng, 16, 1))
-        F.store_ndef(t.b, T.rbytes(rng, rng.choice([0, 5, 40, 100]), 1))
+        # attribute values that differ from what format() writes (Nbr 4, Nbw 1, Nmaxb 13): a stale cached NDEF object shows
+        nmaxb = rng.choice([3, 8, 13, 13])
+        F.store_ndef(t.b, T.rbytes(rng, rng.choice([0, 5, 40]), 1), nbr=rng.choice([1, 2, 4]), nbw=1, nmaxb=nmaxb)
+        self.nmaxb = nmaxb
         self.b0 = {k: bytes(v) for k, v in t.b.items()}
         self.ops = ["r", "w", "w", "f", "fw", "p14", "a"]
         self.authenticated = False
@@ -328,7 +331,7 @@ class _Lite(object):
         return w
 
     def cap(self):
-        return 13 * 16
+        return self.nmaxb * 16
 
     def allowed(self, op, before):
         if op[0] == "w":
@@ -344,6 +347,8 @@ class _Lite(object):
     def after(self, op, out):
         if op[0] == "a" and out == "true":
             self.authenticated = True
+        if op[0] == "f" and out == "true":
+            self.nmaxb = 13
 
 
 def _do_op(tag, op):
@@ -352,8 +357,7 @@ def _do_op(tag, op):
             nd = tag.ndef
             if nd is None:
                 return "false"
-            bytes(nd.octets)
-            return "true"
+            return "true read=%s cap=%d" % (bytes(nd.octets).hex(), nd.capacity)
         if op[0] == "w":
             nd = tag.ndef
             if nd is None:
